@@ -25,7 +25,25 @@ const (
 // Message is a complete OpenFlow message: header + body.
 func Message(c *C, n *N) {
 	f := c.Begin("msg")
-	c.Const("version", 1, 4)
+	// the header carries version 4, except that a hello (and the error that answers a failed
+	// version negotiation) carries the sender's own highest version: U "Version" when it is not 4
+	if c.Enc {
+		if v, ok := n.U["Version"]; ok && v != 4 {
+			c.mark("version", 1, "const")
+			c.putU(v, 1)
+		} else {
+			c.Const("version", 1, 4)
+		}
+	} else {
+		c.need(2, "header")
+		if v, t := uint64(c.buf[c.pos]), c.buf[c.pos+1]; v != 4 && (t == 0 || t == 1) && v >= 1 && v <= 6 {
+			n.init()
+			n.U["Version"] = v
+			c.pos++
+		} else {
+			c.Const("version", 1, 4)
+		}
+	}
 	c.Code(n, 1, MsgCodes)
 	c.Len(f, 2)
 	c.U(n, "Xid", 4)
